@@ -339,6 +339,15 @@ fn run_script(node: &Node) {
                 emit(Ev::Script(id, script, RES_SKIP));
             }
         }
+        Script::DropWeakRoot(t) => {
+            if !w().extw[t as usize].is_empty() {
+                let wk = w().extw[t as usize].pop().unwrap();
+                emit(Ev::Script(id, script, 1));
+                drop(wk);
+            } else {
+                emit(Ev::Script(id, script, RES_SKIP));
+            }
+        }
         Script::UpgradeOwn(k) => {
             let r = {
                 let ws = node.wslots.borrow();
@@ -578,6 +587,7 @@ impl<'a> Exec<'a> {
             }
             Script::Unadopt(a, b) => m.apply_unadopt(a, b, false),
             Script::Downgrade(t) => m.extw[t as usize] += 1,
+            Script::DropWeakRoot(t) => m.extw[t as usize] -= 1,
             Script::UpgradeRoot(t) => {
                 if res == 1 {
                     if !m.live(t) {
@@ -1348,7 +1358,7 @@ fn find_stored(o: u8) -> Option<Rc<Node>> {
 /// Everything else (a reachable object destroyed, a destructor run twice, a
 /// memory error, a wrong Weak answer, a machinery error) ends the path.
 pub fn soft(clause: &str) -> bool {
-    matches!(clause, "K3" | "K4" | "K8" | "K14")
+    matches!(clause, "K3" | "K4" | "K8" | "K9" | "K14")
 }
 
 /// Execute a whole history under one layout. The oracle runs after every step.
